@@ -304,10 +304,9 @@ def wiring_rule(ctx, p):
         ctx.ob("C13.wiring", f"{f.key}:direct-args", ok, where=f, node=b[0], construct=f"grid={kb.get('grid_radians')} uv={kb.get('uv_wavelengths')}",
                message="direct branch must use the grid and baselines the preload tables were built from")
         # selection only by preload_transform
-        ba, bb = wire.enclosing_branches(f, a[0]), wire.enclosing_branches(f, b[0])
-        sel = len(ba) == 1 and len(bb) == 1 and ba[0][0] is bb[0][0] and ba[0][1] != bb[0][1] and norm_text(ba[0][0].test) in ("self.preload_transform", "not self.preload_transform")
-        sel = sel and ((norm_text(ba[0][0].test) == "self.preload_transform") == ba[0][1])
-        ctx.ob("C13.wiring", f"{f.key}:select", sel, where=f, node=a[0], construct=f"preload under {[(norm_text(i.test), t) for i, t in ba]}; direct under {[(norm_text(i.test), t) for i, t in bb]}",
+        pa, pb = wire.path_conds(f, a[0]), wire.path_conds(f, b[0])
+        sel = pa == [("self.preload_transform", True)] and pb == [("self.preload_transform", False)]
+        ctx.ob("C13.wiring", f"{f.key}:select", sel, where=f, node=a[0], construct=f"preload under {pa}; direct under {pb}",
                message="the two variants must be the two arms of one test of self.preload_transform")
     # adjoint wiring
     f = c.methods.get("image_from")
